@@ -172,7 +172,7 @@ func init() {
 
 func init() {
 	checks["C19"] = func(tier string) int {
-		run := ev.NewRun("C19", tier, "model_checking")
+		run := newRun("C19", tier, "model_checking")
 		// (a) sequential
 		depth := 8
 		if tier == "thorough" {
@@ -221,7 +221,7 @@ func init() {
 				return 3
 			}
 			for _, v := range st.Violations {
-				run.Violation(v.Sig, map[string]interface{}{"scenario": "c19", "arg": a, "schedule": v.Schedule, "trace": v.Trace, "detail": v.Detail})
+				run.Violation(v.Sig, map[string]interface{}{"scenario": "c19", "arg": a, "schedule": v.Schedule, "trace": v.Trace, "detail": v.Detail, "replay": mkReplay("explore1", exploreOneJob{Scenario: "c19", Arg: mustJSON(a), Schedule: v.Schedule})})
 			}
 			if st.StepCapHit > 0 || st.CapHit {
 				run.NotExhaustive("execution cap hit in concurrent part")
